@@ -31,7 +31,7 @@ func (s *snapper) obj(t *types.Type) *common.UObj {
 	s.objs[t] = o
 	o.Elem, o.Key, o.Under = s.obj(t.Elem), s.obj(t.Key), s.obj(t.Underlying)
 	for _, m := range t.Members {
-		o.Members = append(o.Members, common.UMember{Name: m.Name, Embedded: m.Embedded, Tags: m.Tags, Type: s.obj(m.Type)})
+		o.Members = append(o.Members, common.UMember{Name: m.Name, Embedded: m.Embedded, Tags: m.Tags, Type: s.obj(m.Type), CommentLines: m.CommentLines})
 	}
 	if t.Methods != nil {
 		o.Methods = map[string]*common.UObj{}
@@ -111,6 +111,11 @@ func writeModule(prog *common.Program, root string) error {
 		}
 		if err := os.WriteFile(filepath.Join(dir, p.File), []byte(p.Source), 0o644); err != nil {
 			return err
+		}
+		for fn, src := range p.Extra {
+			if err := os.WriteFile(filepath.Join(dir, fn), []byte(src), 0o644); err != nil {
+				return err
+			}
 		}
 	}
 	return nil
